@@ -116,7 +116,7 @@ Proof.
     change 8 with (zlen (be_enc 8 (if b then 1 else 0))) in H at 1.
     change (zpad 8) with (zpad (zlen (be_enc 8 (if b then 1 else 0)))) in H.
     apply with_hdr_ttlv in H. rewrite H, spec_be_be_enc. reflexivity.
-  - destruct (forallb ascii_ok cs); [|discriminate]. apply with_hdr_ttlv in H. exact H.
+  - destruct (text_ok cs); [|discriminate]. apply with_hdr_ttlv in H. exact H.
   - apply with_hdr_ttlv in H. exact H.
   - destruct ((- TWO63 <=? v) && (v <? TWO63)) eqn:E; [|discriminate].
     rewrite <- (app_nil_r (be_enc 8 _)) in H. rewrite <- zpad8 in H.
@@ -136,11 +136,37 @@ Proof.
   rewrite forallb_forall in H. specialize (H x Hx). unfold byte_ok, is_byte in *. lia.
 Qed.
 
-Lemma ascii_Forall cs : forallb ascii_ok cs = true -> Forall is_byte cs.
+Lemma utf8_valid_bytes cs : utf8_valid cs = true -> Forall is_byte cs.
 Proof.
-  intros H. apply Forall_forall. intros x Hx.
-  rewrite forallb_forall in H. specialize (H x Hx). unfold ascii_ok, is_byte in *. lia.
+  (* strong induction on the length: the decoder consumes 1 to 4 bytes per step *)
+  assert (H : forall n cs, (length cs <= n)%nat -> utf8_valid cs = true -> Forall is_byte cs).
+  { induction n as [|n IH]; intros cs0 Hn Hv.
+    - destruct cs0; [constructor|cbn in Hn; lia].
+    - destruct cs0 as [|b0 r]; [constructor|]. cbn [utf8_valid] in Hv. cbn [length] in Hn.
+      unfold inr, cont in Hv.
+      destruct ((0 <=? b0) && (b0 <=? 127)) eqn:E1.
+      { constructor; [unfold is_byte; lia|apply IH; [lia|exact Hv]]. }
+      destruct ((194 <=? b0) && (b0 <=? 223)) eqn:E2.
+      { destruct r as [|b1 r1]; [discriminate|]. apply andb_prop in Hv as [Hc Hv]. cbn [length] in Hn.
+        constructor; [unfold is_byte; lia|]. constructor; [unfold is_byte; lia|]. apply IH; [lia|exact Hv]. }
+      destruct ((224 <=? b0) && (b0 <=? 239)) eqn:E3.
+      { destruct r as [|b1 [|b2 r2]]; try discriminate. apply andb_prop in Hv as [Hv Hv2]. apply andb_prop in Hv as [Hb1 Hb2].
+        cbn [length] in Hn.
+        assert (0 <= b1 < 256) by (destruct (b0 =? 224); [lia|destruct (b0 =? 237); lia]).
+        constructor; [unfold is_byte; lia|]. constructor; [exact H|]. constructor; [unfold is_byte; lia|].
+        apply IH; [lia|exact Hv2]. }
+      destruct ((240 <=? b0) && (b0 <=? 244)) eqn:E4; [|discriminate].
+      destruct r as [|b1 [|b2 [|b3 r3]]]; try discriminate.
+      apply andb_prop in Hv as [Hv Hv3]. apply andb_prop in Hv as [Hv Hb3]. apply andb_prop in Hv as [Hb1 Hb2].
+      cbn [length] in Hn.
+      assert (0 <= b1 < 256) by (destruct (b0 =? 240); [lia|destruct (b0 =? 244); lia]).
+      constructor; [unfold is_byte; lia|]. constructor; [exact H|]. constructor; [unfold is_byte; lia|].
+      constructor; [unfold is_byte; lia|]. apply IH; [lia|exact Hv3]. }
+  intros Hv. exact (H (length cs) cs (le_n _) Hv).
 Qed.
+
+Lemma ascii_Forall cs : text_ok cs = true -> Forall is_byte cs.
+Proof. exact (utf8_valid_bytes cs). Qed.
 
 (* the value part and type of an encoding, for well-formedness *)
 Theorem enc_prim_wf mem tag p bs :
